@@ -57,7 +57,7 @@ def _spec_kwargs(spec):
     return kw
 
 
-def _invoke(S, spec, verbose, flavour):
+def _invoke(S, spec, verbose, flavour, limit=None):
     """Perform the call; returns (result, exception)."""
     kw = _spec_kwargs(spec)
     x = spec['x'].copy()
@@ -71,7 +71,12 @@ def _invoke(S, spec, verbose, flavour):
         kw['verbose'] = verbose
     np.random.seed(spec['seed'])
     try:
-        return getattr(S, spec['variant'])(x, **kw), None
+        if limit is None:
+            return getattr(S, spec['variant'])(x, **kw), None
+        with C.time_limited(limit):
+            return getattr(S, spec['variant'])(x, **kw), None
+    except C.CallTimeout as e:
+        return None, e
     except Exception as e:
         C.reraise_if_harness(e)
         return None, e
@@ -101,7 +106,10 @@ def scenario(w):
     # references in the pristine, never-set-up state, no override
     refs = []
     for sp in specs:
+        import engine
+        t0 = engine._real_perf()
         r, e = _invoke(S, sp, 'absent', 'plain')
+        sp['limit'] = max(20, int(40 * (engine._real_perf() - t0)))
         refs.append((r, e))
     if all(e is not None for _, e in refs):
         raise W.ExcludedRun('every call spec raises in the pristine state')
@@ -111,7 +119,7 @@ def scenario(w):
     model = {'console': None, 'disabled': False, 'file': False}
     hist = []
     ops = []
-    w.sample = {'specs': [{k: v for k, v in sp.items() if k != 'x'} for sp in specs], 'history': hist}
+    w.sample = {'specs': [{k: v for k, v in sp.items() if k not in ('x', 'limit')} for sp in specs], 'history': hist}
 
     def check_level(after):
         got = L.get_level()
@@ -203,13 +211,18 @@ def scenario(w):
             w.log('op', op='call', variant=sp['variant'], verbose=verbose, flavour=flavour, at=k)
             t0 = len(w.stage_trace)
             nfaults = w.faults.get('stage_raise', 0)
-            res, exc = _invoke(S, sp, verbose, flavour)
+            res, exc = _invoke(S, sp, verbose, flavour, limit=sp['limit'] if flavour in ('plain', 'stage_raise') else None)
             fired = w.faults.get('stage_raise', 0) != nfaults
             w.stage_fault = None
             state = 'never-set-up' if model['console'] is None else 'set-up'
             made_to_raise = flavour in ('invalid', 'converge', 'bad_interp') or fired
             if exc is not None and verbose not in ('absent', None):
                 w.probe('raise_with_override_active')
+            if isinstance(exc, C.CallTimeout):
+                w.violation('call-hangs', '%s:%s' % (sp['variant'], state),
+                            '%s did not return within the time limit (40 x the pristine call, at least 20 s) in logger state %s although the same call returns at once in a '
+                            'pristine state (history: %s)' % (desc, state, hist))
+                return
             if exc is not None and not made_to_raise and sink_active[0] and isinstance(exc, (OSError, ValueError)):
                 # (e) with a failing log sink a call may fail - but the level obligations below still hold
                 w.probe('call_failed_under_sink_fault')
